@@ -35,6 +35,8 @@ pub struct Row {
 /// 5: like 0 with the value column declared non-nullable (differs from 0 in nullability only)
 /// 6: like 0 with the columns in another order (id before value_i64)
 /// 7: like 0 with schema-level metadata (differs from 0 in metadata only)
+/// 8: like 2 but the column named value_f64 is typed Int64 (same column names as 2, another type)
+/// 9: like 2 with a Timestamp(Microsecond, UTC) column (row timestamps must be whole microseconds)
 pub fn schema(variant: u32) -> SchemaRef {
     let ts_int = Field::new("timestamp", DataType::Int64, false);
     let ts_ts = Field::new("timestamp", DataType::Timestamp(TimeUnit::Nanosecond, Some("UTC".into())), false);
@@ -51,6 +53,8 @@ pub fn schema(variant: u32) -> SchemaRef {
         7 => Schema::new(vec![ts_int, metric, vi, id]).with_metadata([("origin".to_string(), "agent-7".to_string())].into_iter().collect()),
         1 => Schema::new(vec![ts_int, metric, host, vi, id]),
         2 => Schema::new(vec![ts_ts, metric, vf, id]),
+        8 => Schema::new(vec![ts_ts, metric, Field::new("value_f64", DataType::Int64, true), id]),
+        9 => Schema::new(vec![Field::new("timestamp", DataType::Timestamp(TimeUnit::Microsecond, Some("UTC".into())), false), metric, vf, id]),
         4 => Schema::new(vec![ts_int, metric, host, vi, vf, vu, id]),
         _ => Schema::new(vec![ts_ts, metric, host, vi, vf, vu, id]),
     })
@@ -59,7 +63,9 @@ pub fn schema(variant: u32) -> SchemaRef {
 pub fn batch(variant: u32, rows: &[Row]) -> RecordBatch {
     let s = schema(variant);
     let ts: Vec<i64> = rows.iter().map(|r| r.ts).collect();
-    let ts_col: ArrayRef = if variant <= 1 || variant >= 4 {
+    let ts_col: ArrayRef = if variant == 9 {
+        Arc::new(arrow_array::TimestampMicrosecondArray::from(ts.iter().map(|t| t.div_euclid(1000)).collect::<Vec<i64>>()).with_timezone("UTC"))
+    } else if variant <= 1 || (4..=7).contains(&variant) {
         Arc::new(Int64Array::from(ts))
     } else {
         Arc::new(TimestampNanosecondArray::from(ts).with_timezone("UTC"))
@@ -79,7 +85,8 @@ pub fn batch(variant: u32, rows: &[Row]) -> RecordBatch {
         0 | 5 | 7 => vec![ts_col, metric, vi, id],
         6 => vec![ts_col, metric, id, vi],
         1 => vec![ts_col, metric, host, vi, id],
-        2 => vec![ts_col, metric, vf, id],
+        2 | 9 => vec![ts_col, metric, vf, id],
+        8 => vec![ts_col, metric, vi, id],
         4 => vec![ts_col, metric, host, vi, vf, vu, id],
         _ => vec![ts_col, metric, host, vi, vf, vu, id],
     };
@@ -113,6 +120,9 @@ pub fn ts_of(b: &RecordBatch) -> Vec<i64> {
     }
     if let Some(a) = c.as_primitive_opt::<arrow_array::types::TimestampNanosecondType>() {
         return (0..a.len()).map(|i| a.value(i)).collect();
+    }
+    if let Some(a) = c.as_primitive_opt::<arrow_array::types::TimestampMicrosecondType>() {
+        return (0..a.len()).map(|i| a.value(i) * 1000).collect();
     }
     vec![]
 }
